@@ -280,7 +280,6 @@ func slGen(r *Rng, depth int) (src string, rendered string) {
 			if r.Bool() {
 				w = wsRun(r)
 			}
-			w = strings.ReplaceAll(w, "\r", " ")
 			s.WriteString(w)
 			o.WriteString(w)
 		case 5:
@@ -427,6 +426,6 @@ func init() {
 			"each rendered under all four TrimBlocks x LStripBlocks settings (set on the set before compiling or on the template after compiling) twice on the same compiled template and compared byte for byte with (1) the rendering of the hand-stripped source under default options and (2) the output computed directly from the generator's structure; " +
 			"20% of the cases are spaceless bodies of single-line tags, words, whitespace runs, variables, loops and nested spaceless blocks compared with an independent removal of the whitespace runs between '>' and '<'. distinct_nontrivial = distinct documents that carry at least one marker or an option-sensitive text.",
 		MinNontriv:  2000,
-		Assumptions: []string{"'-' or TrimBlocks directly adjacent to verbatim blocks and comments directly adjacent to a delimiter are not generated (unspecified)", "spaceless bodies contain no CR and no '<' or '>' outside tags"},
+		Assumptions: []string{"'-' or TrimBlocks directly adjacent to verbatim blocks and comments directly adjacent to a delimiter are not generated (unspecified)", "spaceless bodies contain no '<' or '>' outside tags"},
 	})
 }
